@@ -236,6 +236,8 @@ pub fn long_word_texts() -> Vec<String> {
 pub fn texts(seed: u64, tier: Tier, shard: usize, nshards: usize) -> Vec<String> {
     let mut all: Vec<String> = vec![];
     let (n_grammar, n_mut_bases, n_c05, n_fmt) = tier.pick((3_000, 120, 4_000, 5_000), (60_000, 1_500, 60_000, 80_000));
+    let sc = crate::util::scaled_usize;
+    let (n_grammar, n_mut_bases, n_c05, n_fmt) = (sc(n_grammar), sc(n_mut_bases), sc(n_c05), sc(n_fmt));
     // sampled parts are generated per shard so that the work is spread
     let gs = grammar_texts(seed.wrapping_add(shard as u64 * 7919), n_grammar / nshards + 1);
     for (i, g) in gs.iter().enumerate() {
